@@ -444,3 +444,17 @@ def as_less(c: ast.AST) -> Optional[Tuple[ast.AST, str, ast.AST]]:
     if isinstance(op, ast.GtE):
         return r, '<=', l
     return None
+
+
+
+def call_args_by_name(repo, call: ast.Call, callee_qual: str) -> Dict[str, ast.AST]:
+    """Arguments of `call` keyed by the parameter names of the package function / class `callee_qual`
+    ('module:func' or 'module:Class' -> its __init__ without self), whether passed by position or by keyword."""
+    f = repo.functions.get(callee_qual)
+    if f is None:
+        k = repo.classes.get(callee_qual)
+        init = k.find_method('__init__') if k is not None else None
+        names = init.positional_names() if init is not None else []
+    else:
+        names = f.positional_names()
+    return bind_call(call, names)[0]
